@@ -141,7 +141,13 @@ def prune_cache(keep=80, min_age_s=3600):
     if not os.path.isdir(d):
         return
     now = time.time()
-    ents = sorted((os.path.getmtime(os.path.join(d, e)), e) for e in os.listdir(d))
+    ents = []
+    for e in os.listdir(d):
+        try:
+            ents.append((os.path.getmtime(os.path.join(d, e)), e))
+        except OSError:
+            pass        # removed by a concurrent run
+    ents.sort()
     for mt, e in ents[:-keep] if len(ents) > keep else []:
         if now - mt > min_age_s:
             shutil.rmtree(os.path.join(d, e), ignore_errors=True)
